@@ -187,9 +187,15 @@ func checkBatchPartitionProvenance(c *Ctx, rule string) {
 		}
 	}
 	// (b) runBatchRelease passes batch-1
-	for _, call := range CallsIn(run, "rollout.ReleaseManager.createBatchRelease") {
+	var creates []ssa.CallInstruction
+	for _, fn := range p.RepoFuncs() {
+		if fn.Pkg == run.Pkg {
+			creates = append(creates, CallsIn(fn, "rollout.ReleaseManager.createBatchRelease")...)
+		}
+	}
+	for _, call := range creates {
 		args := call.Common().Args
-		at := TermOf(args[len(args)-2])
+		at := TermUp(args[len(args)-2], call.Parent())
 		ok := at.Op == "binop" && at.Name == "-" && isParam(run, "batch")(at.Args[0]) && at.Args[1].Op == "const" && at.Args[1].Name == "1"
 		c.Ob(rule, "runBatchRelease#createBatchRelease(batch-1)", call.Pos(), ok, "the BatchRelease is built for batch index step-1", ifs(!ok, "argument is "+at.String()))
 	}
